@@ -101,9 +101,10 @@ theorem assemble_delObs [TrigScalar K] (net : PE.Net K) (a : PE.Asm K) (h : PE.a
 /-! ### the cofactor blocks -/
 
 /-- `Cluster::activeCov()` taken of a block that is already the active block (all of it active) returns
-    the block.  True of the C10 model for every well-formed matrix; NOT proved here (it needs
-    extensionality of the packed band storage: `WF`, equal `dim`/`band`, equal entries ⇒ equal buffers),
-    therefore a named hypothesis. -/
+    the block.  Round 7: a named hypothesis.  Round 8: PROVED for every network
+    (`RevPE.activeCovIdem_all`, Lemmas/ReviseStable.lean, from the extensionality of the packed band
+    storage `Cov.CovMat.ext_of_get`, Lemmas/CovExt.lean); kept as a definition because the lemmas below
+    take it as an argument. -/
 def ActiveCovIdem [Scalar K] (net : PE.Net K) : Prop :=
   ∀ c ∈ net.clusters,
     Cov.activeCov (delCl c).cov ((delCl c).obs.map fun o => ⟨o.active, 1⟩) = (delCl c).cov
